@@ -564,6 +564,7 @@ Proof.
   - by apply liquidate_inv.
   - by apply redeem_inv.
   - by apply xfer_inv.
+  - done.
 Qed.
 
 Theorem run_inv fixed ops : forall s, Inv s -> Inv (run fixed ops s).
@@ -581,6 +582,7 @@ Proof.
   - apply liquidate_fail.
   - apply redeem_fail.
   - apply xfer_fail.
+  - inversion 1; subst; done.
 Qed.
 
 (** * exact effects *)
@@ -963,6 +965,7 @@ Proof.
       { destruct (total dec =? 0); [by rewrite lookup_delete_ne|by rewrite lookup_insert_ne]. }
       rewrite Hl. destruct (denoms s !! d'); [|done]. repeat split; try done; intros; lia.
   - destruct (xfer_ok _ _ _ _ _ _ E) as (_ & _ & ->). by apply Same.
+  - inversion E; subst s'. by apply Same.
 Qed.
 
 Theorem denom_schedule_only_shrinks fixed ops : forall s d den den',
